@@ -178,7 +178,7 @@ extern('ClientView.data', params={'self': 'ClientView'}, returns='Reply', yields
        notes='Client.data (assumed view): DATA is not pipelined -- custom_command(b"DATA") flushes the pipeline, so every '
              'outstanding MAIL / RCPT reply is populated when it returns (pairing of replies is C10)')
 
-contract('SmtpRelayClient._send_envelope', props=['C11', 'C19'],
+contract('SmtpRelayClient._send_envelope', props=['C11', 'C19', 'C06'],
          params={'self': 'SmtpRelayClient', 'rcpt_results': 'Dict[Str, RcptRes]', 'envelope': 'Envelope'},
          requires=['envelope != None', 'envelope.recipients != None', 'len(envelope.recipients) >= 1',
                    'rcpt_results != None', 'distinct_by(envelope.recipients, lambda r: r)',
@@ -224,7 +224,7 @@ contract('SmtpRelayClient._handle_encoding', kind='extern', params={'self': 'Smt
          notes='SmtpRelayClient._handle_encoding assumed at its call site (7-bit conversion through Envelope.encode_7bit, '
                'C20 territory): returns, or raises a 554 relay error; sends nothing')
 
-contract('SmtpRelayClient._deliver', props=['C11', 'C19'],
+contract('SmtpRelayClient._deliver', props=['C11', 'C19', 'C06'],
          params={'self': 'SmtpRelayClient', 'result': 'AsyncResult', 'envelope': 'Envelope'},
          requires=['result != None', 'envelope != None', 'envelope.recipients != None', 'len(envelope.recipients) >= 1',
                    'distinct_by(envelope.recipients, lambda r: r)', 'AR_ok(result)'],
@@ -316,7 +316,7 @@ contract('LmtpRelayClient._send_message_data', kind='extern', yields=True,
          modifies=['fresh', 'any(Reply).code', 'any(Reply).message'],
          notes='the inherited SmtpRelayClient._send_message_data (verified under that name) as seen by the LMTP '
                'client: LmtpClient.send_data returns the per-recipient list form')
-contract('LmtpRelayClient._deliver', module=ML, props=['C11', 'C19'],
+contract('LmtpRelayClient._deliver', module=ML, props=['C11', 'C19', 'C06'],
          scope_timeouts=['self.connect_timeout', 'self.command_timeout', 'self.data_timeout'],
          params={'self': 'LmtpRelayClient', 'result': 'AsyncResult', 'envelope': 'Envelope'},
          requires=['result != None', 'envelope != None', 'envelope.recipients != None', 'len(envelope.recipients) >= 1',
